@@ -44,6 +44,7 @@ def run(chk, repo):
     chk.attempt(_t2, chk, repo, g, mod)
     chk.attempt(_t34, chk, repo, g)
     chk.attempt(locked_loads, chk, repo)
+    chk.attempt(one_lock_per_image, chk, repo)
     chk.count("functions", len(g.funcs))
 
 
@@ -427,3 +428,81 @@ def locked_loads(chk, repo):
         chk.require(all(h >= 1 for h in seen), "C19-T6", where, f"{label}: the array is indexed while a real lock is held",
                     f"{label}: the array is indexed with no real lock held (the lock is a no-op, is missing, or is released before the read): on a file system that shares one file object between opens "
                     f"(fsspec memory://) two loads of this variable seek and read on each other's position", key=f"locked-load:{'single' if n_chunks == 1 else 'multi'}-chunk")
+
+
+def one_lock_per_image(chk, repo):
+    """C19-T7: xarray.to_dataset evaluated on a model image group (pixel variable on a model Array, per-line variables in memory):
+    every lazy wrapper that ends up around the same Array holds the same lock.  Two variables served from one image file under two
+    different locks are not serialised against each other: on a file system that shares one file object between opens they seek and
+    read on each other's position."""
+    from collections import OrderedDict
+    from ..shapes import Const, DictS, Fn, Interp, ListLit, NonTermination, Obj, ShapeError, Top, TupS, _Raise
+    xm = repo.module("ceos_alos2.xarray")
+    hm = repo.module("ceos_alos2.hierarchy")
+    where = f"{xm.relpath}:to_dataset"
+    chk.rule("C19-T7", "all lazy wrappers built around one image array share one lock (one file, one lock)", 1)
+    arr_cls = repo.resolve_module_name(xm, "Array")
+    var_cls = repo.resolve_module_name(hm, "Variable")
+    grp_cls = repo.resolve_module_name(hm, "Group")
+    wr_cls = repo.resolve_module_name(xm, "LazilyIndexedWrapper")
+    if any(r.kind != "class" for r in (arr_cls, var_cls, grp_cls, wr_cls)):
+        raise AnalysisError("anchor vanished: Array / Variable / Group / LazilyIndexedWrapper classes")
+    I = Interp(repo)
+    sc = I.module_scope(xm)
+    n_locks = [0]
+
+    def new_lock(I_, a, kw):
+        n_locks[0] += 1
+        lk = Obj("Lock", OrderedDict(number=Const(n_locks[0])))
+        lk.fields["__enter__"] = Fn("py", impl=lambda I2, a2, k2: lk, name="__enter__")
+        lk.fields["__exit__"] = Fn("py", impl=lambda I2, a2, k2: Const(None), name="__exit__")
+        return lk
+    for name in list(xm.imports):
+        r = repo.resolve_module_name(xm, name)
+        last = r.fq.split(".")[-1] if r.kind == "external" else None
+        if last in REAL_LOCKS or last in NOOP_LOCKS:
+            sc.vars[name] = Fn("py", impl=new_lock, name=name)
+    wrappers = []
+    real_ctor = Fn("classctor", cls=wr_cls.node, mod=wr_cls.mod, name=wr_cls.node.name)
+
+    def wrapper(I_, a, kw):
+        w = I_.call(real_ctor, a, kw)
+        wrappers.append(w)
+        return w
+    sc.vars["LazilyIndexedWrapper"] = Fn("py", impl=wrapper, name="LazilyIndexedWrapper")
+
+    def dataset(I_, a, kw):
+        variables = a[0] if a else kw.get("data_vars", DictS())
+        attrs = kw.get("attrs", DictS())
+        ds = Obj("Dataset", OrderedDict(variables=variables, data_vars=variables, attrs=attrs.copy() if isinstance(attrs, DictS) else attrs, dims=ListLit([Const("rows"), Const("columns")])))
+        ds.fields["pipe"] = Fn("py", impl=lambda I2, a2, k2: I2.call(a2[0], [ds] + list(a2[1:]), k2), name="pipe")
+        ds.fields["set_coords"] = Fn("py", impl=lambda I2, a2, k2: ds, name="set_coords")
+        ds.fields["chunk"] = Fn("py", impl=lambda I2, a2, k2: ds, name="chunk")
+        return ds
+    sc.vars["xr"] = Obj("xarray", OrderedDict(Variable=Fn("py", impl=lambda I_, a, k: Obj("xrVariable", OrderedDict(data=a[1] if len(a) > 1 else k.get("data", Const(None)))), name="xr.Variable"),
+                                              Dataset=Fn("py", impl=dataset, name="xr.Dataset")))
+    sc.vars["np"] = Obj("numpy", OrderedDict(dtype=Fn("py", impl=lambda I_, a, k: a[0] if a else Const(None), name="np.dtype")))
+    sc.vars["indexing"] = Obj("indexing", OrderedDict(LazilyIndexedArray=Fn("py", impl=lambda I_, a, k: Obj("LazilyIndexedArray", OrderedDict(array=a[0] if a else Const(None))), name="LazilyIndexedArray")))
+    arrays = {}
+    for pol in ("HH",):
+        arrays[pol] = Obj("Array", OrderedDict(shape=TupS([Const(6), Const(4)]), dtype=Const("uint16"), records_per_chunk=Const(2), type_code=Const("IU2"), byte_ranges=ListLit([]), url=Const(f"IMG-{pol}"),
+                                               chunk_offsets=DictS()), klass=(arr_cls.mod, arr_cls.node))
+    V = lambda dims, data: Obj("Variable", OrderedDict(dims=ListLit([Const(d) for d in dims]), data=data, attrs=DictS()), klass=(var_cls.mod, var_cls.node))
+    group = Obj("Group", OrderedDict(path=Const("/imagery/HH"), url=Const("u"), data=DictS(OrderedDict([("time", V(["rows"], ListLit([Const(1), Const(2)]))), ("data", V(["rows", "columns"], arrays["HH"]))])),
+                                     attrs=DictS(OrderedDict(coordinates=ListLit([Const("time")])))), klass=(grp_cls.mod, grp_cls.node))
+    try:
+        I.call(I.lookup("to_dataset", sc), [group], {})
+    except (ShapeError, _Raise, RecursionError, NonTermination) as e:
+        raise AnalysisError(f"{where}: cannot be evaluated on a model image group: {str(e)[:140]}")
+    by_array = {}
+    for w in wrappers:
+        a, lk = w.fields.get("array"), w.fields.get("lock")
+        if not isinstance(a, Obj) or not isinstance(lk, Obj) or lk.cls != "Lock":
+            raise AnalysisError(f"{where}: a lazy wrapper does not keep its array and lock as `array` / `lock` ({w!r:.80}); not decided")
+        by_array.setdefault(id(a), set()).add(lk.fields["number"].v)
+    if not by_array:
+        raise AnalysisError(f"{where}: no lazy wrapper is built around the image array of the model group; not decided")
+    for k, locks in by_array.items():
+        chk.require(len(locks) == 1, "C19-T7", where, "one lock guards every access path to the image array",
+                    f"{len(locks)} different locks guard the lazy wrappers built around ONE image array ({len(wrappers)} wrappers): variables served from the same image file are not serialised against each other - on a file system "
+                    f"that shares one file object between opens (fsspec memory://) their loads seek and read on each other's position", key="one-lock-per-image")
